@@ -179,7 +179,7 @@ CHECKS = {
     text="utils.py is TRANSLATED on every run into real-valued Coq definitions; props/C20.v proves about them: p_liquid strictly increasing on [123,332] K and p_ice on [110,273.16] K "
          "(positive derivative by auto_derive + interval, mean-value theorem), agreement at the triple point to 1e-4 in ln p, p_ice <= p_liquid on [123,273.15] K, flux zero at equilibrium, "
          "positive iff p_vap > p_vac, strictly increasing in p_vap, prefactor = kappa * 2/(2-kappa) * sqrt(m/(2 pi k_B)) increasing on (0,1]. Interval certificates tie the generated "
-         "definitions to the Python functions' outputs at sampled arguments; a grid oracle searches for failing inputs. The vacuum-window clauses are covered in the Snowing model (see notes).",
+         "definitions to the Python functions' outputs at sampled arguments; a grid oracle searches for failing inputs. Vacuum window: in the 1D and 2D step models (model/Sn1D.v, model/Sn2D.v; one-step correspondence on VISF runs with the window inside the process) the evaporative flux is exactly zero outside the open window and a VISF step there IS the shelf step in both stages; VISF vs shelf runs are bit-identical outside the window and colder at the top inside.",
     ref="6 C20", technique="translation of the source to Gallina + Rocq real analysis (Coquelicot auto_derive, Interval) + interval certificates",
     note=TB % "c20" + "translator whitelist; numpy transcendental functions trusted to 1e-9 at certified points."),
 }
